@@ -201,6 +201,7 @@ func (p *Poller) Polling() error {
 
 // AddReadWrite registers the given file descriptor with readable and writable events to the poller.
 func (p *Poller) AddReadWrite(pa *PollAttachment, edgeTriggered bool) error {
+	vhook.Sys("p.ctl.AddReadWrite", p, pa.FD, 0, nil)
 	var ev epollevent
 	ev.events = ReadWriteEvents
 	if edgeTriggered {
@@ -212,6 +213,7 @@ func (p *Poller) AddReadWrite(pa *PollAttachment, edgeTriggered bool) error {
 
 // AddRead registers the given file descriptor with readable event to the poller.
 func (p *Poller) AddRead(pa *PollAttachment, edgeTriggered bool) error {
+	vhook.Sys("p.ctl.AddRead", p, pa.FD, 0, nil)
 	var ev epollevent
 	ev.events = ReadEvents
 	if edgeTriggered {
@@ -223,6 +225,7 @@ func (p *Poller) AddRead(pa *PollAttachment, edgeTriggered bool) error {
 
 // AddWrite registers the given file descriptor with writable event to the poller.
 func (p *Poller) AddWrite(pa *PollAttachment, edgeTriggered bool) error {
+	vhook.Sys("p.ctl.AddWrite", p, pa.FD, 0, nil)
 	var ev epollevent
 	ev.events = WriteEvents
 	if edgeTriggered {
@@ -234,6 +237,7 @@ func (p *Poller) AddWrite(pa *PollAttachment, edgeTriggered bool) error {
 
 // ModRead modifies the given file descriptor with readable event in the poller.
 func (p *Poller) ModRead(pa *PollAttachment, edgeTriggered bool) error {
+	vhook.Sys("p.ctl.ModRead", p, pa.FD, 0, nil)
 	var ev epollevent
 	ev.events = ReadEvents
 	if edgeTriggered {
@@ -245,6 +249,7 @@ func (p *Poller) ModRead(pa *PollAttachment, edgeTriggered bool) error {
 
 // ModReadWrite modifies the given file descriptor with readable and writable events in the poller.
 func (p *Poller) ModReadWrite(pa *PollAttachment, edgeTriggered bool) error {
+	vhook.Sys("p.ctl.ModReadWrite", p, pa.FD, 0, nil)
 	var ev epollevent
 	ev.events = ReadWriteEvents
 	if edgeTriggered {
@@ -256,5 +261,6 @@ func (p *Poller) ModReadWrite(pa *PollAttachment, edgeTriggered bool) error {
 
 // Delete removes the given file descriptor from the poller.
 func (p *Poller) Delete(fd int) error {
+	vhook.Sys("p.ctl.Delete", p, fd, 0, nil)
 	return os.NewSyscallError("epoll_ctl del", epollCtl(p.fd, unix.EPOLL_CTL_DEL, fd, nil))
 }
